@@ -54,7 +54,9 @@ Fixpoint perms_mism (PM : list (N * bool * bool)) : list T3 :=
 
 (* kind 2 (Copy) / 3 (Clone): the copy is structurally identical (its class is
    sent as the index of a universe entry with the same rendering), has the
-   same hash, compares equal and does not share storage.  Values that do not
+   same hash, compares equal, does not share storage, and its hash remains a function
+   of its content after a member nested in it is changed in place (bit 8: no stale
+   cached hash).  Values that do not
    implement Cloneable are sent with class = |U| and are accepted only when the
    model agrees that the kind has no Clone. *)
 Definition cloneable (v : value) : bool :=
@@ -68,7 +70,7 @@ Fixpoint copies_mism (kind : N) (U us : list value) (CP : list N) (B : list N) (
         (if cloneable v then (kind, i, 9%N) :: rest else rest)
       else
         match nth_error U (N.to_nat c) with
-        | Some w => if struct_eqb v w && (b =? 7)%N then rest else (kind, i, b) :: rest
+        | Some w => if struct_eqb v w && (b =? 15)%N then rest else (kind, i, b) :: rest
         | None => (kind, i, 8%N) :: rest
         end
   | [], [], [] => []
